@@ -1,5 +1,74 @@
 (* C04 — recomposition reproduces the parsed text.
-   Statements only.  (Work in progress: see Proofs/ParseData.v.) *)
-From Coq Require Import List NArith.
-From UP Require Import Base.Chars Base.Regex Model.Uri Model.Ip4 Model.Parse Spec.Rfc3986 Spec.Split.
+   Statements only; proofs in Proofs/ParseRecompose.v, on top of C02 (Proofs/ParseData.v,
+   Proofs/ParseWf.v).  [to_text] is the text uriToString writes (Model/Recompose.v; that the buffer
+   version writes exactly this text when it fits is C05).
+
+   PARTIAL.  Proved here for all accepted inputs: what the engine writes is the input with the
+   engine's rendering of the host in place of the host as written (C04_recompose_modulo_host);
+   hence, when the host is not rendered from address bytes -- registered name, IPvFuture literal,
+   no host -- the input itself (C04_recompose_partial, C04_reparse_partial); and for an IPv6 host
+   the input with only the text between the brackets replaced (C04_recompose_ip6_shape).
+   Missing for the full statement [to_text u = canon_ip6 s]: two facts about the address code alone,
+     parse_ip4 h = Some o -> concat (ip4_pieces o 0) = h            (octet printing inverts parse_ip4)
+     concat (ip6_byte_pieces (ip6_bytes h) 0) = groups_text (ip6_value h)   for accepted literals
+   Proofs/ParseRecompose.v derives the IPv4 case (parse_to_text_ip4), the IPv6 case
+   (parse_to_text_ip6_canon) and the full statement (parse_to_text_canon:
+   forall s u, parse s = POk u -> to_text u = canon_ip6 s) from them as explicit hypotheses. *)
+From Coq Require Import List NArith Bool String.
+From UP Require Import Base.Chars Model.Uri Model.Ip4 Model.Parse Model.Recompose Spec.Unparse
+  Proofs.ParseSplit Proofs.ParseRecompose.
+From UP Require Proofs.ResolveProofs.
 Import ListNotations.
+Local Open Scope N_scope.
+
+(* for every accepted input: every delimiter and every component but the host is reproduced, the
+   host is written as the engine renders it (from the octets / the 16 bytes / the text) *)
+Theorem C04_recompose_modulo_host : forall s u, parse s = POk u ->
+  to_text u = unparse_with (host_rendered u) u
+  /\ s = unparse_with (match hostText u with Some h => host_part u h | None => [] end) u.
+Proof. exact parse_to_text_with. Qed.
+Print Assumptions C04_recompose_modulo_host.
+
+Theorem C04_recompose_partial : forall s u, parse s = POk u -> ip4 u = None -> ip6 u = None -> to_text u = s.
+Proof. exact parse_to_text_no_ip. Qed.
+Print Assumptions C04_recompose_partial.
+
+(* consequently parsing the recomposed text gives the same object *)
+Theorem C04_reparse_partial : forall s u, parse s = POk u -> ip4 u = None -> ip6 u = None ->
+  parse (to_text u) = POk u.
+Proof. exact parse_reparse_no_ip. Qed.
+Print Assumptions C04_reparse_partial.
+
+(* IPv6 host: the literal is non-empty, does not start with "v", its bytes are those of the text, and
+   the output is the input with the text between the brackets replaced by the rendering of the bytes *)
+Theorem C04_recompose_ip6_shape : forall s u b, parse s = POk u -> ip6 u = Some b ->
+  exists pre h post,
+    hostText u = Some h /\ h <> [] /\ b = ip6_bytes h /\ v_start h = false
+    /\ avoid [91] pre /\ avoid [93] h
+    /\ s = pre ++ [91] ++ h ++ [93] ++ post
+    /\ to_text u = pre ++ [91] ++ concat (ip6_byte_pieces b 0) ++ [93] ++ post.
+Proof. exact parse_to_text_ip6. Qed.
+Print Assumptions C04_recompose_ip6_shape.
+
+(* ---- non-vacuity ---------------------------------------------------------------------------- *)
+Local Open Scope string_scope.
+Notation txt := ResolveProofs.txt.
+
+Example C04_ex_no_ip :
+  forallb (fun s => match parse (txt s) with
+                    | POk u => match ip4 u, ip6 u with
+                               | None, None => if list_eq_dec N.eq_dec (to_text u) (txt s) then true else false
+                               | _, _ => false
+                               end
+                    | PSyntax _ => false
+                    end)
+          ["http://u:p@host:80/a/b?q#f"; "//@:?#"; "x"; "//[v1.x]/"; "/"; "a:/b"; "//h/b"; ""; "a//b"; "//h//";
+           "?"; "#"; "./a:b"; "%41/%42"; "//h"; "//h/"; "s:"] = true.
+Proof. vm_compute. reflexivity. Qed.
+
+Example C04_ex_ip6 :
+  match parse (txt "//[::1]:8/x") with
+  | POk u => to_text u = txt "//[0000:0000:0000:0000:0000:0000:0000:0001]:8/x"
+  | PSyntax _ => False
+  end.
+Proof. vm_compute. reflexivity. Qed.
